@@ -120,9 +120,14 @@ CLAIMED.update({
         note="Finite universe for the architecture/kind substring heuristics; the general statement over all good names is not proved (DESIGN §9). Trusted: Lean kernel, model, harness tokeniser (python-debian is third-party).",
         design="6/C10"),
     "C11": dict(
-        technique="Lean 4 proof (sequential check <-> pairwise agreement; permutation invariance; round counting of the release loop) + verdict correspondence and end-to-end round/exit monitors",
+        technique="Lean 4 proof (sequential check <-> pairwise agreement; permutation invariance; round counting of the release loop; the concrete release-file stage in skel: after every round a release file exists only if that round obtained it) + verdict correspondence, release-stage correspondence (real download_release_files vs Model/ReleaseStage) and end-to-end round/exit monitors",
         text=("C11_validate_iff, C11_codename_iff, C11_order_independent, C11_only_sections, C11_rounds_first, C11_rounds_all_invalid proved for "
-              "all release file lists; real validate_release_files is compared with the model and an independent pairwise spec on mutated "
+              "all release file lists; on Model/ReleaseStage.lean (reset/add/download/drop per round, the tries loop) C11_round_drops_unobtained and "
+              "C11_stage_drops_unobtained prove for every prior skel content (files of an earlier or killed run), every server script and every "
+              "verdict sequence that a release file left in skel was obtained by the last round, C11_stage_first / C11_stage_all_invalid restate "
+              "the round counts on the concrete stage; the real RepositoryMirror.download_release_files is run over the scripted transport from "
+              "skel trees with stale release files and compared with the model (outcome, rounds, requests, skel content, obtained paths); "
+              "real validate_release_files is compared with the model and an independent pairwise spec on mutated "
               "pairs; end-to-end runs with k inconsistent rounds check the number of rounds, exit status and that nothing is published."),
         note="Release tokenisation by python-debian is exercised, not modelled (S12). Trusted: Lean kernel, model, harness.",
         design="6/C11"),
